@@ -123,6 +123,15 @@ def gen_path(rng, flow):
     else:
         k = rng.choice(["static", "static", "line"])
     inside = flow["family"] == "pydrex_cell"
+    if inside and rng.random() < 0.4:
+        # pydrex.pathlines.get_pathline through the same cell (position in the cell's plane)
+        idx = {"X": 0, "Y": 1, "Z": 2}
+        final = [0.0, 0.0, 0.0]
+        final[idx[flow["horizontal"]]] = rng.uniform(-0.7, 0.7)
+        final[idx[flow["vertical"]]] = rng.uniform(-0.7, 0.7)
+        return {"kind": "pydrex_pathline", "final": final, "max_strain": rng.choice([1.0, 2.5, 5.0]),
+                "horizontal": flow["horizontal"], "vertical": flow["vertical"],
+                "velocity_edge": flow["velocity_edge"]}
     x0 = [rng.uniform(-0.5, 0.5) for _ in range(3)]
     if k == "static":
         return {"kind": "static", "x0": x0}
